@@ -178,6 +178,38 @@ def run(repo: Repo, chk: Check, thorough: bool = False) -> None:
            'decoded line by line (or with a lossy error handler)' if linewise else
            'the payload is decoded in one piece and \'\' is returned on UnicodeError: one Latin-1 display name in a remote inventory makes every other entry of '
            'that inventory unresolvable', repo.loc(gp.mod, dec[0]))
+    # the line-by-line fallback must work on the INFLATED bytes (the variable the decompress result was stored in)
+    infl_vars = {t.id for n in gp.walk() if isinstance(n, ast.Assign) and isinstance(n.value, ast.Call) and call_name(n.value) == 'decompress'
+                 for t in n.targets if isinstance(t, ast.Name)}
+    for n in gp.walk():
+        if isinstance(n, (ast.For, ast.comprehension)) and any(isinstance(x, ast.Call) and call_name(x) == 'decode' for x in ast.walk(n if isinstance(n, ast.For) else getattr(n, '_parent', n))):
+            srcn = [x.id for x in ast.walk(n.iter) if isinstance(x, ast.Name)]
+            if not srcn:
+                continue
+            okv = bool(infl_vars) and all(v in infl_vars for v in srcn if v not in ('bytes', 'str'))
+            chk.ob('R17.3', f'{READER}._getPayload :: the per-line fallback splits the inflated data', okv,
+                   f'iterates {norm(n.iter)[:40]}' if okv else
+                   f'`{norm(n.iter)[:50]}` is not the result of decompress(): the fallback decodes lines of the still-compressed payload, so one undecodable line again '
+                   'loses every usable line of the inventory', repo.loc(gp.mod, n.iter))
+    # header skipping: `parts = data.split(b"\\n", 1)` has ONE element when there is no newline (a download cut inside the header)
+    for n in gp.walk():
+        if isinstance(n, ast.Subscript) and isinstance(n.value, ast.Name) and isinstance(n.slice, ast.Constant) and isinstance(n.slice.value, int) and n.slice.value >= 1 and \
+                isinstance(n.ctx, ast.Load):
+            origin = [a.value for a in gp.walk() if isinstance(a, ast.Assign) and any(isinstance(t, ast.Name) and t.id == n.value.id for t in a.targets)]
+            if not any(isinstance(v, ast.Call) and call_name(v) in ('split', 'rsplit') for v in origin):
+                continue
+            st_n = cfgp.stmt_of(n)
+            facts = cfgp.dominating_tests(st_n)
+            lenok = any(isinstance(t, ast.Compare) and len(t.ops) == 1 and isinstance(t.left, ast.Call) and call_name(t.left) == 'len' and t.left.args and
+                        norm(t.left.args[0]) == n.value.id and isinstance(t.comparators[0], ast.Constant) and
+                        ((isinstance(t.ops[0], ast.NotEq) and not pol and t.comparators[0].value > n.slice.value) or
+                         (isinstance(t.ops[0], ast.Eq) and pol and t.comparators[0].value > n.slice.value) or
+                         (isinstance(t.ops[0], (ast.Gt, ast.GtE)) and pol)) for t, pol in facts)
+            intry = any(_handles(t, 'IndexError') is not None for t in enclosing_trys(n, gp.node))
+            chk.ob('R17.3', f'{READER}._getPayload :: {norm(n)} is only read when the split produced it', lenok or intry,
+                   'dominated by a length test' if lenok else 'inside try/except IndexError' if intry else
+                   f'`{norm(n)}` is read without knowing that the split found a separator: data that ends inside the `#` header lines (a truncated download such as '
+                   "b'# Sphinx inventory version 2') raises IndexError and the run aborts", repo.loc(gp.mod, n))
     up = repo.func(f'{READER}.update')
     cfg_up = CFG(up)
     pl = [c for c in calls_in(up) if call_name(c) == '_getPayload']
@@ -189,7 +221,7 @@ def run(repo: Repo, chk: Check, thorough: bool = False) -> None:
             ok = False
     chk.ob('R17.3', f'{READER}.update :: missing data reported before decoding', ok,
            '_getPayload is only reached when the cache returned data' if ok else '_getPayload may be called with no data', up.loc)
-    chk.require('R17.3', 5)
+    chk.require('R17.3', 7)
 
     # ------------------------------------------------------------ R17.4
     gl = repo.func(f'{WRITER}._generateLine')
